@@ -118,6 +118,7 @@ def _build(d):
                 # the criterion handed over through a CELL instead of being
                 # written into the formula
                 'critcell': d.pick(3) == 0,
+                'npcells': d.pick(5) == 0,
                 'crits': crits, 'orient': d.choice(['c', 'c', 'r'])}
     if k == 3:
         col = [_cell(d) for _ in range(min(nrows, 11))]
@@ -351,6 +352,20 @@ def judge(case):
         else:
             args = ','.join('%s,%s' % (rngs[j], lit(crits[j][1]))
                             for j in range(len(cols)))
+        if case.get('npcells'):
+            # whole numbers held as numpy integer scalars (what a cell holds
+            # after numpy arithmetic, or what a caller sets): every second
+            # whole-number cell
+            import numpy
+            presets = dict(presets or {})
+            flip = 0
+            for a_, v_ in sorted(cells.items()):
+                if isinstance(v_, int) and not isinstance(v_, bool) \
+                        and a_ not in presets:
+                    flip += 1
+                    if flip % 2:
+                        presets[a_] = numpy.int64(v_)
+            res.labels += ('numpy-int-cells',)
         f = '=%s(%s)' % (k, args)
         o = lib.eval_formula(f, cells, addr='Sheet1!Z99',
                              presets=presets)[0]
